@@ -1101,9 +1101,9 @@ class Deb822ParsedValueElement(Deb822Element):
 
     def convert_to_text(self):
         # type: () -> str
-        if self._text_no_comments_cached is None:
-            self._text_no_comments_cached = super().convert_to_text()
-        return self._text_no_comments_cached
+        if self._text_cached is None:
+            self._text_cached = super().convert_to_text()
+        return self._text_cached
 
     def convert_to_text_without_comments(self):
         # type: () -> str
